@@ -351,13 +351,16 @@ Section Mro.
     end.
 
   Section Stateful.
+    Variable CACHED : bool.                          (* Gen: _get_attribute_docstring carries functools.lru_cache *)
     Variable scan : string -> option parts.          (* class name -> fresh _get_attribute_docstring result *)
 
     Definition fetch (st : cache) (k : string) : option parts * cache :=
-      match cache_get st k with
-      | Some v => (v, st)
-      | None => let v := scan k in (v, cache_set st k v)
-      end.
+      if CACHED then
+        match cache_get st k with
+        | Some v => (v, st)
+        | None => let v := scan k in (v, cache_set st k v)
+        end
+      else (scan k, st).
 
     (* the for loop; `created` is the cached object of class k0, updated in place - unless it is a COPY *)
     Fixpoint acc_loop (mro : list string) (created : option (string * parts)) (st : cache)
@@ -402,3 +405,26 @@ Definition help_of (chain : list part) (explicit : option string) (d : parts) : 
               else let s := first_nonempty chain d in if str_nonempty s then Some s else None
   | None => let s := first_nonempty chain d in if str_nonempty s then Some s else None
   end.
+
+(* ---------- FieldWrapper.get_arg_options: the help= handed to the argparse action ---------- *)
+(* the if/elif chain is regenerated (Gen ACTION_HELP_TABLE): tests and values it may use *)
+Inductive ahtest := AHasHelp (* if self.help *) | ADefaultNotNone (* self.default is not None *).
+Inductive ahval := AVHelp (* self.help *) | AVToken (* TEMPORARY_TOKEN, erased again by the help formatter *).
+
+Fixpoint action_help (token : string) (tbl : list (ahtest * ahval)) (help : option string) (has_default : bool)
+  : option string :=
+  match tbl with
+  | [] => None                                      (* no 'help' key in the options *)
+  | (t, v) :: r =>
+      if match t with
+         | AHasHelp => match help with Some h => str_nonempty h | None => false end
+         | ADefaultNotNone => has_default
+         end
+      then match v with AVHelp => help | AVToken => Some token end
+      else action_help token r help has_default
+  end.
+
+(* FieldWrapper.arg_options: options = get_arg_options(); options.update(custom_arg_options) when OVERRIDE (Gen
+   CUSTOM_OVERRIDES); custom: the help= keyword given to simple_parsing's field(), kept in metadata['custom_args'] *)
+Definition final_help (override : bool) (custom base : option string) : option string :=
+  if override then match custom with Some h => Some h | None => base end else base.
